@@ -37,6 +37,9 @@ CFGS = {
     1: {"buffer_filters": ["bf"]},
     2: {"default_filters": ["str", "ef"]},
     3: {"buffer_filters": ["bf"], "default_filters": ["str", "ef"]},
+    # buffer filters that are also used as def / block filters (a filter named in both lists is applied in both places)
+    4: {"buffer_filters": ["bf", "f1"]},
+    5: {"buffer_filters": ["f1"]},
 }
 
 BODYARGS = ("", "x", "x, y=1")
